@@ -435,6 +435,40 @@ package py
 //@   modifies lasterr[0]
 //@   ensures fail: nextFailed() ==> err == lasterr[0]
 
+// ---- the C3 merge step (C16): a class is appended to the linearisation only if it is in the tail of NONE of the
+// lists being merged (the tail of a list = everything after its next unmerged entry).  A candidate that still sits in
+// the tail of an earlier list would be placed before a class that must precede it.
+
+//@ spec inTail(l *List, whence int, o Object) bool = exists q in [whence + 1, len(l.Items)): l.Items[q] == o
+//@ spec listOfLists(l *List) bool = forall k in [0, len(l.Items)): is(l.Items[k], *List) && l.Items[k].(*List) != nil
+
+//@ func tail_contains(list, whence, o) (r)
+//@   requires nn: list != nil
+//@   requires lo: whence >= 0 - 1 && whence <= 1099511627776
+//@   pure
+//@   ensures def: r <==> inTail(list, whence, o)
+//@   loop 1 (j)
+//@     invariant rng: whence + 1 <= j
+//@     invariant none: forall q in [whence + 1, j): list.Items[q] != o
+//@     decreases len(list.Items) - j
+
+//@ spec remOK(remain []int, n int) bool = len(remain) == n && forall k in [0, n): 0 <= remain[k] && remain[k] <= 1099511627776
+
+//@ func pmerge(acc, to_merge) (err)
+//@   requires nn: acc != nil && to_merge != nil && acc != to_merge
+//@   requires lists: listOfLists(to_merge)
+//@   modifies *
+//@   callsite (*py.List).Append c3: forall m in [0, to_merge_size): !inTail(to_merge.Items[m].(*List), remain[m], candidate)
+//@   loop 1
+//@     invariant rem: remOK(remain, to_merge_size)
+//@   loop 3 (empty_cnt, i)
+//@     invariant rem: remOK(remain, to_merge_size) && 0 <= i
+//@   loop 4 (j)
+//@     invariant rng: 0 <= j && j <= to_merge_size && remOK(remain, to_merge_size)
+//@     invariant clear: forall m in [0, j): !inTail(to_merge.Items[m].(*List), remain[m], candidate)
+//@   loop 2 (j)
+//@     invariant rem: remOK(remain, to_merge_size) && 0 <= j
+
 // ---- C3 linearisation input (C16): the lists handed to pmerge are the parents' MROs in order of the bases, followed
 // by the list of bases itself ----
 
